@@ -297,6 +297,49 @@ func (r *Run) Count(name string, evals, transitions, states int64, exhaustive bo
 	r.phases = append(r.phases, ph)
 }
 
+// AddExternal folds the evidence written by a sub-run (a specially built binary of the same check)
+// into this run. The sub-run has already printed its VIOLATION / KNOWN-FINDING lines.
+func (r *Run) AddExternal(path string, exitCode int) {
+	b, err := os.ReadFile(path)
+	if err != nil {
+		r.HarnessError("sub-run wrote no evidence: " + err.Error())
+		return
+	}
+	var ev struct {
+		Violations int `json:"violations"`
+		Coverage   struct {
+			Evaluations int64            `json:"evaluations"`
+			States      int64            `json:"states"`
+			Transitions int64            `json:"transitions"`
+			Exhaustive  bool             `json:"exhaustive"`
+			Phases      []map[string]any `json:"phases"`
+			Samples     []any            `json:"samples"`
+		} `json:"coverage"`
+	}
+	if err := json.Unmarshal(b, &ev); err != nil {
+		r.HarnessError("sub-run evidence unreadable: " + err.Error())
+		return
+	}
+	r.mu.Lock()
+	defer r.mu.Unlock()
+	r.evals += ev.Coverage.Evaluations
+	r.states += ev.Coverage.States
+	r.transitions += ev.Coverage.Transitions
+	if !ev.Coverage.Exhaustive {
+		r.exhaustive = false
+	}
+	r.phases = append(r.phases, ev.Coverage.Phases...)
+	for _, s := range ev.Coverage.Samples {
+		if len(r.samples) < 12 {
+			r.samples = append(r.samples, s)
+		}
+	}
+	r.nviol += ev.Violations
+	if exitCode != 0 && exitCode != 1 {
+		r.harnessErr = append(r.harnessErr, fmt.Sprintf("sub-run exited with %d", exitCode))
+	}
+}
+
 func (r *Run) Sample(s any) {
 	r.mu.Lock()
 	if len(r.samples) < 12 {
@@ -363,7 +406,11 @@ func (r *Run) Finish() {
 	}
 	b, _ := json.MarshalIndent(ev, "", " ")
 	_ = os.MkdirAll(filepath.Join(Root, "evidence"), 0o755)
-	if err := os.WriteFile(filepath.Join(Root, "evidence", r.ID+".json"), b, 0o644); err != nil {
+	evPath := filepath.Join(Root, "evidence", r.ID+".json")
+	if alt := os.Getenv("VERIF_EVIDENCE_OUT"); alt != "" {
+		evPath = alt // a sub-run (specially built binary) reports to its parent
+	}
+	if err := os.WriteFile(evPath, b, 0o644); err != nil {
 		fmt.Fprintln(os.Stderr, "cannot write evidence:", err)
 		os.Exit(2)
 	}
